@@ -198,6 +198,9 @@ pub fn alphabet_full() -> Vec<Op> {
         DeleteNamedStyle(s("mine")),
         ApplyNamedStyle(0, 1, 1, 2, 2, s("mine")),
         ApplyNamedStyle(0, 1, 1, 1, 1, s("bad")),
+        // a built-in style that carries only a number format, on an absent cell of the bold row / of the filled column
+        ApplyNamedStyle(0, 5, 3, 1, 1, s("Percent")),
+        ApplyNamedStyle(0, 3, 7, 1, 1, s("Percent")),
         PasteStyles(0, 1, 1, 2, 2),
         PasteStyles(0, 2, 3, 1, 1),
         InsertRows(0, 3, 1),
@@ -266,6 +269,7 @@ pub fn alphabet_full() -> Vec<Op> {
         DeleteCf(0, 0),
         DeleteCf(0, 1),
         AddCfFill(0, s("A2:A4"), s("A2>2"), s("#00FFFF")),
+        AddCfPlain(0, s("B1:B2"), s("B1>0")),
         RaiseCf(0, 0),
         LowerCf(0, 0),
         RaiseCf(0, 1),
